@@ -1293,6 +1293,15 @@ class Evaluator:
                 return args[0]
         if fname in ("np.mod", "np.remainder", "numpy.mod", "numpy.remainder") and len(args) == 2 and not kws:
             return self._binop(ast.Mod(), args[0], args[1])
+        if fname == "getattr" and len(args) in (2, 3) and not kws and args[1][0] == "const" and isinstance(args[1][1], str):
+            if len(args) == 2:
+                lvk = ("attr", args[0], args[1][1])
+                return env.get(lvk, self._attr(args[0], args[1][1], env))
+        if fname == "setattr" and len(args) == 3 and not kws and args[1][0] == "const" and isinstance(args[1][1], str):
+            lvk = ("attr", args[0], args[1][1])
+            env[lvk] = args[2]
+            res.events.append(Event("store", ("tuple", (lvk, args[2])), n, pc))
+            return NONE
         if fname in ("np.flipud", "numpy.flipud") and len(args) == 1 and not kws:
             return ("sub", args[0], ("slice", NONE, NONE, num(-1)))        # flipud(a) is a[::-1]
         if fname in ("np.flip", "numpy.flip") and len(args) == 1 and dict(kws).get("axis") == ZERO and len(kws) == 1:
@@ -1967,6 +1976,10 @@ def module_env(project, modname, ev=None):
             # keep only values built from numbers, PI and other constants
             if v[0] == "dict" and v[1] and _is_constant_table(project.mod(modname).tree, n.targets[0].id, v):
                 env[n.targets[0].id] = v      # a look-up table: a literal dictionary the module never mutates
+                continue
+            if v[0] == "tuple" and v[1] and any(a[0] == "sym" and a != PI for a in atoms_of(v)) \
+                    and _is_constant_table(project.mod(modname).tree, n.targets[0].id, v):
+                env[n.targets[0].id] = v      # a literal tuple of rows naming module-level functions / classes
                 continue
             if v[0] == "dict" or (v[0] in ("list", "op") and (v[0] == "op" or not v[1])):
                 continue   # mutable containers keep their identity (name), not a literal value
